@@ -85,6 +85,7 @@ class Trace:
         sess_id = {}           # client -> running session number
         sess_counter = [0]
         last_got = {}          # (client, ty) -> last seq delivered (order check)
+        upd_sent, upd_delivered, upd_applied = {}, {}, {}     # per client: ticks of update messages sent / how many delivered / applied
         pending_cops = {}
         maps = {}              # (client, entity) -> pre-spawn id the server registered
         pre_dead = set()       # (client, pre id) the client's own logic despawned
@@ -128,6 +129,7 @@ class Trace:
                         authorized.add(c)
                         auth_tick_pending.add(c)
                     session[c] = dict(ut=None, last={}, extras=None)
+                    upd_sent[c], upd_delivered[c], upd_applied[c] = [], 0, 0
                     sess_counter[0] += 1
                     sess_id[c] = sess_counter[0]
             elif t[0] == "authorize":
@@ -142,8 +144,17 @@ class Trace:
                 auth_tick_pending.discard(c)
                 session.pop(c, None)
                 last_view.pop(c, None)
+                for k_ in [k_ for k_ in maps if k_[0] == c]:
+                    del maps[k_]          # the server forgets pre-spawn mappings with the connection
+                for k_ in [k_ for k_ in spec_vis if k_[0] == c]:
+                    del spec_vis[k_]      # ... and its visibility settings
             elif t[0] == "stop":
                 epoch += 1
+            elif t[0] == "deliver" and t[2] == "s2c" and t[3] == "0":
+                c = int(t[1])
+                if c in upd_sent:
+                    pending_n = len(upd_sent[c]) - upd_delivered[c]
+                    upd_delivered[c] += pending_n if t[4] == "all" else min(1, pending_n)
             elif t[0] == "sframe":
                 self.stats["frames"] += 1
                 for op in pending_sops:
@@ -165,12 +176,16 @@ class Trace:
                             spec_marked[e] = op[2] == "1"
                     elif op[0] == "despawn":
                         e = int(op[1])
+                        for k_ in [k_ for k_ in maps if k_[1] == e]:
+                            del maps[k_]      # the mapping is consumed once the entity leaves the client
                         if e in spec_marked:
                             spec_marked[e] = None          # dead
                             for k in [k for k in spec_vis if k[1] == e]:
                                 del spec_vis[k]
                     elif op[0] == "unmark":
                         e = int(op[1])
+                        for k_ in [k_ for k_ in maps if k_[1] == e]:
+                            del maps[k_]
                         if spec_marked.get(e):
                             spec_marked[e] = False
                             for k in [k for k in spec_vis if k[1] == e]:
@@ -183,6 +198,8 @@ class Trace:
                         c, e = int(op[1]), int(op[2])
                         if c in authorized and cfg.get("policy", "all") != "all" and e in spec_marked:
                             spec_vis[(c, e)] = op[3] == "1"
+                            if op[3] == "0":
+                                maps.pop((c, e), None)
                 pending_sops = []
                 ran = False
                 muts_this_tick = {}
@@ -246,6 +263,8 @@ class Trace:
                     if f[0] in ("upd", "mut"):
                         c = int(f[1])
                         self.stats[f[0]] += 1
+                        if f[0] == "upd" and c in upd_sent:
+                            upd_sent[c].append(int(kv_field(l, "t")))
                         if c not in authorized:
                             self.add("C07", i, "replication message sent to a client that is not authorized: %s" % l)
                         view = snapshots.get((epoch, tick_now, c), {})
@@ -302,6 +321,8 @@ class Trace:
                                                 ent=op[2] if len(op) > 2 else None)
                 for pc_ in pre_dead_pending.pop(c, []):
                     pre_dead.add((c, pc_))
+                if c in upd_applied:
+                    upd_applied[c] = upd_delivered[c]
                 got_line = [l for l in block if l.startswith("got %d " % c)]
                 cli_line = [l for l in block if l.startswith("cli %d " % c)]
                 if got_line and cli_line:
@@ -318,6 +339,8 @@ class Trace:
                         if delivered[key] > 1:
                             self.add("C05", i, "event %d delivered %d times to client %d" % (sq, delivered[key], c))
                         st_ = stamps.get((c, sq))
+                        if ty != "SEI" and st_ is not None and c in upd_sent and st_ in upd_sent[c] and upd_applied[c] <= upd_sent[c].index(st_):
+                            self.add("C04", i, "event %d handed to client %d logic before the update message of tick %d it depends on was applied" % (sq, c, st_))
                         if ty != "SEI" and st_ is not None and ut_now < st_:
                             self.add("C04", i, "event %d handed to client %d logic at update tick %d although it was sent with tick %d" % (sq, c, ut_now, st_))
                         if em["ent"] is not None and (len(parts) < 3 or parts[2] != em["ent"]):
